@@ -60,6 +60,9 @@ def configs(tier):
             add(group='fresh_flags', cls=cls, mode=mode, storage='batch', d=2, q=1, T=2, prefill=1, _cost=400)
     for cls in CLASSES:
         add(group='given_objects', cls=cls, d=2, _cost=20)
+    for cls in CLASSES:
+        for dyn in ((None, True, False) if cls.startswith('Incremental') else (None,)):
+            add(group='documented_defaults', cls=cls, dyn=dyn, _cost=20)
     for nm in ('str', 'int'):
         add(group='many_features', names=nm, d=12 if tier == 'quick' else 40, _cost=200)
     for cls in ('IncrementalSage', 'IncrementalPFI'):
@@ -376,3 +379,47 @@ def _many_features(env, cfg):
             env.claim('keys_are_the_given_names_many_features', _keys_exact(ex.importance_values, names) and
                       list(ret.keys()).sort() == list(ex.importance_values.keys()).sort())
         env.claim('storage_holds_every_observation', len(storage) == t + 1)
+
+
+def _documented_defaults(env, cfg):
+    """an explainer built from the required arguments alone carries the DOCUMENTED default collaborators: the storage equals,
+    attribute by attribute, the object the docstring names (GeometricReservoirStorage(size=100) in the dynamic setting,
+    UniformReservoirStorage(size=100) in the static one, BatchStorage(store_targets=True) / the sliding window for the batch
+    explainers), the imputer is MarginalImputer('joint') on that storage, one inner sample, smoothing 0.001.
+    (The behaviour of a storage with given attributes is the subject of C07-C09.)"""
+    from ixai.storage import GeometricReservoirStorage, UniformReservoirStorage, BatchStorage
+    from ixai.imputer import MarginalImputer
+    cls = CLASSES[cfg['cls']]
+    names = names_for('str', 2)
+    model = UFModel(env, names)
+    loss = UFLoss(env)
+    incremental = cls in (IncrementalSage, IncrementalPFI)
+    kw = {} if cfg['dyn'] is None else {'dynamic_setting': cfg['dyn']}
+    if incremental:
+        ex = guarded(env, 'ctor_required_args_only', cls, model, loss, names, **kw)
+        dyn = True if cfg['dyn'] is None else cfg['dyn']        # documented: "dynamic_setting ... Defaults to True"
+        doc = GeometricReservoirStorage(size=100) if dyn else UniformReservoirStorage(size=100)
+    else:
+        ex = guarded(env, 'ctor_required_args_only', cls, model, names, loss)
+        doc = None if cls is IntervalSage else BatchStorage(store_targets=True)
+    st = ex._storage
+    if doc is not None:
+        env.claim('default_storage_is_of_the_documented_class', type(st) is type(doc), detail=f"{type(st).__name__}")
+        for attr, want in vars(doc).items():
+            if isinstance(want, (bool, int, float, str, type(None))):
+                got = vars(st).get(attr, '<missing>')
+                env.claim('default_storage_equals_the_documented_object',
+                          type(got) is type(want) and got == want, detail=f"{type(st).__name__}.{attr} = {got!r}, documented default {want!r}")
+        env.claim('default_storage_starts_empty', len(st.get_data()[0]) == 0)
+    imp = ex._imputer
+    env.claim('default_imputer_is_marginal_joint_on_the_explainer_storage',
+              type(imp) is MarginalImputer and type(imp.sampling_strategy) is str and imp.sampling_strategy == 'joint'
+              and imp.storage_object is st, detail=f"{type(imp).__name__}, strategy {getattr(imp, 'sampling_strategy', None)!r}")
+    env.claim('default_inner_samples_is_one', type(ex.n_inner_samples) is int and ex.n_inner_samples == 1)
+    if incremental:
+        env.claim('default_smoothing_alpha', ex._smoothing_alpha == 0.001)
+        env.claim('default_loss_direction', getattr(ex, 'loss_bigger_is_better', False) is False
+                  if hasattr(ex, 'loss_bigger_is_better') else True)
+
+
+META['explanation'] += ' documented_defaults: the default storage / imputer / sample count of every explainer equal the objects named in the docstrings, attribute by attribute.'
